@@ -199,6 +199,14 @@ class Form(Node):
 
         if e < 1:
             # Ellipse
+            # The first guess below is meant for M in ]-pi, 2pi[. With an unreduced
+            # mean anomaly (e.g. M0 + n.dt) the Newton iteration can cycle forever.
+            # E(M + 2k.pi) = E(M) + 2k.pi
+            shift = 0.0
+            if not -np.pi < M < 2 * np.pi:
+                shift = 2 * np.pi * np.floor(M / (2 * np.pi))
+                M = M - shift
+
             if -np.pi < M < 0 or M > np.pi:
                 E = M - e
             else:
@@ -212,7 +220,7 @@ class Form(Node):
                 E = E1
                 E1 = next_E(E, e, M)
 
-            return E1
+            return E1 + shift
         else:
             # Hyperbolic
             if e < 1.6:
